@@ -184,6 +184,12 @@ impl<S: Storage> Builder<S> {
 
     /// Resolve the column index of `expr` in `schema`.
     fn resolve_column_index_on_schema(&self, expr: Id, schema: &[Id]) -> RecExpr {
+        // the expression itself may be an input column (e.g. `WHERE flag`)
+        if let Some(idx) = schema.iter().position(|x| *x == expr) {
+            let mut resolved = RecExpr::default();
+            resolved.add(Expr::ColumnIndex(ColumnIndex(idx as _)));
+            return resolved;
+        }
         self.node(expr).build_recexpr(|id| {
             if let Some(idx) = schema.iter().position(|x| *x == id) {
                 return Expr::ColumnIndex(ColumnIndex(idx as _));
